@@ -78,6 +78,10 @@ class Recorder:
         if obj.is_number:
             c, fr = _cls(obj)
             return c, ZERO, fr
+        if kind_k == "e" and _is_number(obj):
+            # an unevaluated node that evaluates to a number (meter**0): the collector treats it as a number
+            c, fr = _cls(sp.sympify(complex(obj)) if complex(obj).imag else sp.sympify(complex(obj).real))
+            return c, ZERO, None
         return None
 
     def __call__(self, kind, payload):  # pylint: disable=too-many-branches,too-many-statements,too-many-locals
@@ -160,9 +164,12 @@ class Recorder:
             own_vec = project_dim(getattr(expr, "dimension"))
             if own_vec is None:
                 return "BAD:leaf dimension outside the base dimensions"
+            # a quantity visited through its own collector call (operand of a power, abs, function) is an
+            # opaque dimensioned object for the syntactic inference, whatever its value; only quantities
+            # that are direct terms/factors (handled inline below) are looked at by value
             oc = "sym"
-            if isinstance(expr, SymQuantity):
-                oc = _cls(sp.sympify(expr.scale_factor))[0]
+            if isinstance(expr, SymQuantity) and _cls(sp.sympify(expr.scale_factor))[0] == "fin":
+                oc = "fin"
             return [_tok("e", "leaf", 0, oc if c != "err" else c, vec, fr, ho=True, oc=oc, od=own_vec)]
         if isinstance(expr, (sp.Mul, sp.Add, sp.Min, sp.Max)):
             # numbers and quantities among the operands are handled inline by the collector (no event of their own)
